@@ -178,12 +178,20 @@ func (c *criteriaToMix) mix(
 }
 
 func (c *criteriaToMix) criterion(currentCriteria *model.Criteria, valRange *utils.ValueRange) model.Criterion {
+	name := "__" + c.c1.Id + "+" + c.c2.Id + "__"
+	if len(name) > maxMixedCriterionIdLength {
+		// mixing mixed criteria again and again would make the ids (and everything keyed by them) grow without bound
+		name = longMixedCriterionName
+	}
 	return model.Criterion{
-		Id:          currentCriteria.NotUsedName("__" + c.c1.Id + "+" + c.c2.Id + "__"),
+		Id:          currentCriteria.NotUsedName(name),
 		Type:        model.Gain,
 		ValuesRange: valRange,
 	}
 }
+
+const maxMixedCriterionIdLength = 128
+const longMixedCriterionName = "__mixedCriterion__"
 
 type mixResult struct {
 	c1, c2, result model.Weights
